@@ -1090,6 +1090,13 @@ func mantExpCase(c *Ctx, xo *Opnd) {
 		if e != 0 || mo.Form != xo.Form || mo.Neg != xo.Neg {
 			c.Fail(key, fmt.Sprintf("special: e=%d mant=%s", e, mo))
 		}
+		if en := x.MantExp(nil); en != 0 {
+			c.Fail(key, fmt.Sprintf("special: MantExp(nil) = %d, want 0", en))
+		}
+		x2 := xo.Build()
+		if e2 := x2.MantExp(x2); e2 != 0 || Observe(x2).Form != xo.Form || Observe(x2).Neg != xo.Neg {
+			c.Fail(key+" aliased", fmt.Sprintf("special: x.MantExp(x) = %d, x = %s", e2, Observe(x2)))
+		}
 		return
 	}
 	if int64(e) != xo.Exp || x.MantExp(nil) != e {
